@@ -524,3 +524,238 @@ Proof.
 Qed.
 
 End Consequences.
+
+(* ================================================================================================ *)
+(* no descent into excluded folders or through links; parents first                                  *)
+Section Structure.
+Variable N : nat.
+Variable C : nat.
+Variable root : tree.
+
+Definition jok (j : job) : Prop := match j with JDir p t => dir_at root p t | JDone => True end.
+Definition wok (w : wpc) : Prop :=
+  match w with
+  | WRead p t => dir_at root p t
+  | WIter p rest => exists ch pre, dir_at root p (Dir true ch) /\ ch = pre ++ rest
+  | WAdd p n sub rest | WPush p n sub rest =>
+      exists ch pre, dir_at root p (Dir true ch) /\ ch = pre ++ (n, (false, sub)) :: rest /\ is_dir sub = true
+  | _ => True
+  end.
+Definition rok (r : result) : Prop := match r with REntry e => included root e | RErr => True end.
+
+Lemma s_wstep al g w g' w' : wstep N C al g w g' w' ->
+  wok w -> Forall jok (jobs g) -> Forall rok (rq g) ->
+  wok w' /\ Forall jok (jobs g') /\ Forall rok (rq g').
+Proof.
+  intros Hw Hwok Hj Hr.
+  destruct Hw; cbn [jobs rq wok] in *;
+    repeat match goal with H : jobs _ = _ |- _ => rewrite H in * end.
+  - inversion Hj; subst. auto.
+  - inversion Hj; subst. auto.
+  - split; [|auto]. exists ch, []. auto.
+  - repeat split; auto. apply Forall_app; split; auto. constructor; [exact I|constructor].
+  - auto.
+  - destruct Hwok as (ch & pre & Hd & ->). split; [|auto].
+    exists (pre ++ (n, (true, sub)) :: rest), (pre ++ [(n, (true, sub))]). split; [exact Hd|]. rewrite <- app_assoc. reflexivity.
+  - destruct Hwok as (ch & pre & Hd & ->). repeat split; auto.
+    + exists (pre ++ (n, (false, Leaf k)) :: rest), (pre ++ [(n, (false, Leaf k))]). split; [exact Hd|]. rewrite <- app_assoc. reflexivity.
+    + apply Forall_app; split; auto.
+      assert (Hin : In (n, (false, Leaf k)) (pre ++ (n, (false, Leaf k)) :: rest)) by (apply in_or_app; right; left; reflexivity).
+      destruct k; cbn [leaf_items]; constructor; try constructor; cbn [rok]; auto;
+        eexists p, _, n, _; repeat split; eauto.
+  - destruct Hwok as (ch0 & pre & Hd & ->). repeat split; auto.
+    + exists (pre ++ (n, (false, Dir r ch)) :: rest), pre. auto.
+    + apply Forall_app; split; auto. constructor; [|constructor]. cbn [rok].
+      eexists p, _, n, _; repeat split; eauto. apply in_or_app; right; left; reflexivity.
+      reflexivity.
+  - auto.
+  - auto.
+  - destruct Hwok as (ch & pre & Hd & -> & Hdir). repeat split; auto.
+    + exists (pre ++ (n, (false, sub)) :: rest), (pre ++ [(n, (false, sub))]). split; [exact Hd|]. rewrite <- app_assoc. reflexivity.
+    + apply Forall_app; split; auto. constructor; [|constructor]. cbn [jok].
+      eapply da_child; eauto. apply in_or_app; right; left; reflexivity.
+  - auto.
+  - auto.
+  - auto.
+  - auto.
+  - auto.
+  - repeat split; auto. apply Forall_app; split; auto.
+  - auto.
+Qed.
+
+Definition SInv (s : state) : Prop :=
+  Forall jok (jobs (gl s)) /\ Forall wok (ws s) /\ Forall rok (rq (gl s)) /\ Forall (included root) (recvd s).
+
+Lemma sinv_init : SInv (init N root).
+Proof.
+  unfold SInv, init; cbn [gl ws jobs rq recvd]. repeat split; auto.
+  - constructor; [apply da_root|constructor].
+  - clear. induction N; cbn [repeat]; constructor; auto. exact I.
+Qed.
+
+Lemma sinv_step s s' : SInv s -> step N C s s' -> SInv s'.
+Proof.
+  intros (Hj & Hw & Hr & Hrec) Hs. unfold SInv.
+  destruct Hs as [s a w b g' w' Hws Hst|s e r Hc Hrq|s r Hc Hrq|s Hc|s Hc Hrq Hex]; cbn [gl ws cons recvd jobs rq].
+  - rewrite Hws in Hw. apply Forall_app in Hw as [Ha Hwb]. inversion Hwb as [|? ? Hw0 Hb]; subst.
+    destruct (s_wstep _ _ _ _ _ Hst Hw0 Hj Hr) as (W & J & R). repeat split; auto.
+    apply Forall_app; split; auto.
+  - rewrite Hrq in Hr. inversion Hr; subst. repeat split; auto. apply Forall_app; split; auto.
+  - rewrite Hrq in Hr. inversion Hr; subst. repeat split; auto.
+  - repeat split; auto.
+  - repeat split; auto.
+Qed.
+
+Lemma reach_sinv s : reach N C root s -> SInv s.
+Proof. induction 1; [apply sinv_init|eapply sinv_step; eauto]. Qed.
+
+(* whatever is a job or a result lies below directories that are themselves reached without
+   entering an excluded folder or a link: [dir_at] is closed under prefixes *)
+Lemma dir_at_prefix p t : dir_at root p t -> forall q r, p = q ++ r -> r <> [] ->
+  exists ch, dir_at root q (Dir true ch).
+Proof.
+  induction 1 as [|p ch n sub Hd IH Hin Hdir]; intros q r E Hr.
+  - destruct q; destruct r; try discriminate. contradiction.
+  - destruct r as [|x r] using rev_ind; [contradiction|]. clear IHr.
+    rewrite app_assoc in E. apply app_inj_tail in E as [E _]. subst p.
+    destruct r as [|y r]; [rewrite app_nil_r in Hd; eauto|].
+    eapply IH; [reflexivity|discriminate].
+Qed.
+
+End Structure.
+
+(* ---- parents first ---- *)
+Lemma parent_first_snoc l q k : parent_first l ->
+  (forall p n, q = p ++ [n] -> p <> [] -> In (p, KDir) l) -> parent_first (l ++ [(q, k)]).
+Proof.
+  intros HP Hq a b p n k0 E Hp.
+  destruct b as [|y b] using rev_ind.
+  - apply app_inj_tail in E as [-> E]. injection E as -> ->. eapply Hq; eauto.
+  - clear IHb. rewrite app_comm_cons, app_assoc in E. apply app_inj_tail in E as [-> _]. eapply HP; eauto.
+Qed.
+
+Lemma parent_first_prefix l1 l2 : parent_first (l1 ++ l2) -> parent_first l1.
+Proof. intros HP a b p n k E Hp. eapply (HP a (b ++ l2)); eauto. rewrite E, <- app_assoc. reflexivity. Qed.
+
+Lemma parent_first_ancestors l : parent_first l -> ancestors_first l.
+Proof.
+  intros HP a b q r. revert a b. induction r as [|n r IH] using rev_ind; intros a b k E Hq Hr; [contradiction|].
+  rewrite app_assoc in E. pose proof (HP a b (q ++ r) n k E) as Hin.
+  assert (Hne : q ++ r <> []) by (destruct q; [contradiction|discriminate]).
+  specialize (Hin Hne). destruct r as [|m r]; [rewrite app_nil_r in Hin; exact Hin|].
+  apply in_split in Hin as (a1 & a2 & ->).
+  assert (In (q, KDir) a1).
+  { eapply (IH a1 (a2 ++ (((q ++ m :: r) ++ [n]), k) :: b) KDir); [|exact Hq|discriminate].
+    rewrite E, <- app_assoc. reflexivity. }
+  apply in_or_app. auto.
+Qed.
+
+Lemma ents_app l1 l2 : ents (l1 ++ l2) = ents l1 ++ ents l2.
+Proof. unfold ents. apply flat_map_app. Qed.
+
+Section Order.
+Variable N : nat.
+Variable C : nat.
+
+Definition ann (l : list entry) (p : path) : Prop := p = [] \/ In (p, KDir) l.
+Definition jann (l : list entry) (j : job) : Prop := match j with JDir p _ => ann l p | JDone => True end.
+Definition wann (l : list entry) (w : wpc) : Prop :=
+  match w with
+  | WRead p _ | WIter p _ => ann l p
+  | WAdd p n _ _ | WPush p n _ _ => ann l p /\ ann l (p ++ [n])
+  | _ => True
+  end.
+Lemma ann_mono l x p : ann l p -> ann (l ++ x) p.
+Proof. intros [H|H]; [left; exact H|right; apply in_or_app; auto]. Qed.
+Lemma jann_mono l x j : jann l j -> jann (l ++ x) j.
+Proof. destruct j; cbn [jann]; auto using ann_mono. Qed.
+Lemma wann_mono l x w : wann l w -> wann (l ++ x) w.
+Proof. destruct w; cbn [wann]; auto using ann_mono. intros []; auto using ann_mono. intros []; auto using ann_mono. Qed.
+
+Lemma parent_first_send l p n k : parent_first l -> ann l p -> parent_first (l ++ [(p ++ [n], k)]).
+Proof.
+  intros HP Ha. apply parent_first_snoc; [exact HP|].
+  intros p' n' E Hp'. apply app_inj_tail in E as [-> _]. destruct Ha; [contradiction|assumption].
+Qed.
+
+Lemma p_wstep g w g' w' l0 : wstep N C true g w g' w' ->
+  parent_first (l0 ++ ents (rq g)) -> wann (l0 ++ ents (rq g)) w -> Forall (jann (l0 ++ ents (rq g))) (jobs g) ->
+  exists x, l0 ++ ents (rq g') = (l0 ++ ents (rq g)) ++ x /\
+    parent_first (l0 ++ ents (rq g')) /\ wann (l0 ++ ents (rq g')) w' /\ Forall (jann (l0 ++ ents (rq g'))) (jobs g').
+Proof.
+  intros Hw HP Hwa Hja.
+  assert (Hmono : forall x, Forall (jann ((l0 ++ ents (rq g)) ++ x)) (jobs g)).
+  { intros x. eapply Forall_impl; [|exact Hja]. intros j. apply jann_mono. }
+  destruct Hw; cbn [jobs rq wann] in *;
+    repeat match goal with H : jobs _ = _ |- _ => rewrite H in * end;
+    try discriminate.
+  - exists []. rewrite app_nil_r. inversion Hja; subst. auto.
+  - exists []. rewrite app_nil_r. inversion Hja; subst. repeat split; auto.
+  - exists []. rewrite app_nil_r. auto.
+  - exists []. rewrite ents_app. cbn [ents flat_map]. rewrite !app_nil_r. auto.
+  - exists []. rewrite app_nil_r. auto.
+  - (* leaf *) rewrite ents_app, app_assoc.
+    destruct k; cbn [leaf_items ents flat_map]; rewrite ?app_nil_r;
+      try (eexists; split; [reflexivity|]; repeat split; [apply parent_first_send; auto|apply ann_mono; auto|apply Hmono]).
+    exists []. rewrite app_nil_r. auto.
+  - (* folder *) rewrite ents_app, app_assoc. cbn [ents flat_map]. rewrite ?app_nil_r.
+    eexists; split; [reflexivity|]. repeat split; [apply parent_first_send; auto|apply ann_mono; auto| |apply Hmono].
+    right. apply in_or_app. right. left. reflexivity.
+  - exists []. rewrite app_nil_r. auto.
+  - exists []. rewrite app_nil_r. destruct Hwa as [Hp Hc]. repeat split; auto.
+    apply Forall_app; split; auto.
+  - exists []. rewrite app_nil_r. auto.
+  - exists []. rewrite app_nil_r. auto.
+  - exists []. rewrite app_nil_r. auto.
+  - exists []. rewrite app_nil_r. auto.
+  - exists []. rewrite app_nil_r. auto.
+  - exists []. rewrite app_nil_r. repeat split; auto. apply Forall_app; split; auto.
+  - exists []. rewrite app_nil_r. auto.
+Qed.
+
+Lemma wstep_dead_rq g w g' w' : wstep N C false g w g' w' -> rq g' = rq g.
+Proof. destruct 1; cbn [rq]; try reflexivity; discriminate. Qed.
+
+Definition sentE (s : state) : list entry := recvd s ++ ents (rq (gl s)).
+Definition PInv (s : state) : Prop :=
+  parent_first (sentE s) /\
+  (alive (cons s) = true -> Forall (jann (sentE s)) (jobs (gl s)) /\ Forall (wann (sentE s)) (ws s)).
+
+Lemma pinv_init root : PInv (init N root).
+Proof.
+  unfold PInv, sentE, init; cbn [gl ws cons recvd jobs rq ents flat_map app]. split.
+  - intros a b p n k E. destruct a; discriminate.
+  - intros _. split; [constructor; [left; reflexivity|constructor]|].
+    induction N; cbn [repeat]; constructor; auto. exact I.
+Qed.
+
+Lemma pinv_step s s' : PInv s -> step N C s s' -> PInv s'.
+Proof.
+  intros [HP HA] Hs. unfold PInv, sentE in *.
+  destruct Hs as [s a w b g' w' Hws Hst|s e r Hc Hrq|s r Hc Hrq|s Hc|s Hc Hrq Hex]; cbn [gl ws cons recvd jobs rq].
+  - destruct (alive (cons s)) eqn:Hal.
+    + destruct (HA eq_refl) as [HJ HW]. rewrite Hws in HW.
+      apply Forall_app in HW as [Ha Hwb]. inversion Hwb as [|? ? Hw0 Hb]; subst.
+      destruct (p_wstep _ _ _ _ _ Hst HP Hw0 HJ) as (x & E & P' & W' & J').
+      split; [exact P'|]. intros _. split; [exact J'|].
+      rewrite E. apply Forall_app; split; [|constructor; [rewrite <- E; exact W'|]];
+        (eapply Forall_impl; [|eassumption]); intros w1; apply wann_mono.
+    + rewrite (wstep_dead_rq _ _ _ _ Hst). split; [exact HP|discriminate].
+  - rewrite Hrq in *. cbn [ents flat_map app] in *. rewrite <- app_assoc. cbn [app].
+    split; [exact HP|]. intros _. apply HA. rewrite Hc. reflexivity.
+  - rewrite Hrq in *. cbn [ents flat_map app] in *.
+    split; [exact HP|]. intros _. apply HA. rewrite Hc. reflexivity.
+  - cbn [ents flat_map]. rewrite app_nil_r. split; [eapply parent_first_prefix; eauto|discriminate].
+  - split; [exact HP|]. intros _. apply HA. rewrite Hc. reflexivity.
+Qed.
+
+Lemma reach_pinv root s : reach N C root s -> PInv s.
+Proof. induction 1; [apply pinv_init|eapply pinv_step; eauto]. Qed.
+
+Lemma reach_parent_first root s : reach N C root s -> ancestors_first (recvd s).
+Proof.
+  intros Hr. destruct (reach_pinv _ _ Hr) as [HP _]. apply parent_first_ancestors.
+  eapply parent_first_prefix. exact HP.
+Qed.
+
+End Order.
